@@ -7,6 +7,70 @@ TB = ('Trusted base: rustc MIR construction and layout; tools/mirfacts exporter;
       '(intervals x known-bits, self-tested against Python integers); reference tables in gbsa/. ')
 
 CHECKS = {
+ 'C04': dict(
+    technique='cross-configuration comparison of step tails, engine selection by address, loop-exit relation of both engines',
+    text='Does NOT decide the whole-program statement (runtime behaviour); it is reduced to C01, C02, C03 plus three '
+         'necessary structural clauses that are decided: for every status code both build configurations perform the same '
+         'effects after the engine returns; the jit build runs translated code iff PC < 0x8000 and otherwise the same '
+         'interpreter entry point; both engines end blocks on is_block_end of the decoder output and their loop-exit '
+         'conditions coincide on every (terminator, start region, next region) class.',
+    note=TB + 'Inherits the limits of C01-C03 (no x86 semantics of template bytes); per-step equality of device state is not claimed.',
+    ref='DESIGN.md#c04'),
+ 'C13': dict(
+    technique='abstract interpretation of the Timer methods; one symbolic iteration of the catch-up loop (field-sensitive loop havoc)',
+    text='Decides the structure that makes DIV/TIMA right: rate table (TAC&3 -> bit 9/3/5/7), DIV = bits 8-15, reset on write, '
+         'overflow reload + request, the falling-edge firing condition of the +1 step and of a TAC write (from path '
+         'conditions), and batching invariance by loop uniformity (remaining count only in guard/decrement, OR-accumulated '
+         'requests, final mask commutes, disabled fast path equivalent). Exact counter values for a given history are '
+         'runtime arithmetic and are not decided.',
+    note=TB + 'u32 cycle counter does not overflow within one batch.',
+    ref='DESIGN.md#c13'),
+ 'C14': dict(
+    technique='abstract fixpoint of the (mode, LY, dots) schedule machine from per-mode symbolic loop iterations',
+    text='Decides: the abstract reachable set from VideoState::new has modes 2/3/0 only on lines 0-143 and mode 1 only on '
+         '144-153; every mode exit tests and subtracts the same K with K2+K3+K0 = K1 = 456, LY changes only at exits and '
+         'wraps only from 153, hence a 70224-clock frame; VBlank is requested exactly on the step that makes LY 144 with '
+         'the buffer swap; every mode entry tests its STAT enable and every LY change / LYC write / STAT write compares LY '
+         'with LYC; STAT register composition; uniform 4-clock steps independent of batching.',
+    note=TB + 'Delivered clock counts are multiples of 4 (C09.6). Pixel output is C15 (not applicable).',
+    ref='DESIGN.md#c14'),
+ 'C16': dict(
+    technique='bus-model extraction + symbolic loop iteration + paired-counter lemma + assert discharge',
+    text='Decides: a transfer is armed only by the 0xff46 write with source = value<<8 and offset 0; each step reads '
+         'source+offset through the bus and writes that byte to 0xfe00+offset; offset <= 0x9f inside the loop by the '
+         'paired-counter lemma (offset + remaining invariant, remaining0 = min(0xa0-offset0, clocks/4), saved offset <= '
+         '0x9f by field invariant), so only OAM is written; retire exactly at 0xa0, otherwise saved with progress; DMA '
+         'before device tick; no assert in the DMA part can fail.',
+    note=TB + 'Clock counts multiples of 4 (C09.6); 0xfe00-0xfe9f is OAM (C10). Equality with a reference for sources '
+         'modified mid-transfer follows on paper from rules 3-5.',
+    ref='DESIGN.md#c16'),
+ 'C17': dict(
+    technique='per-button abstract interpretation, path enumeration of get_value with known-bit evaluation, guard evaluation under line-fall assumptions',
+    text='Decides: press/release map every button to the hardware matrix bit; selection polarity; P1 reads 0 on a line '
+         'exactly when a selected group has it pressed and echoes the select bits (per selection combination, per line); '
+         'the latch guard holds whenever some line falls while the others change arbitrarily (selection change) or alone '
+         '(button press) and not when no line can have fallen; read-and-clear once per tick; routing. The full 256x4x20 '
+         'transition relation itself is runtime data.',
+    note=TB,
+    ref='DESIGN.md#c17'),
+ 'C19': dict(
+    technique='layout facts, structural scan, affine form of the unrolled checksum loop, dominance on load_rom paths, exhaustive table evaluation, taint',
+    text='Decides: header layout and read_header protocol; the checksum is x = x - byte - 1 over exactly 0x34..=0x4c compared '
+         'with the byte at 0x4d; Core::from_rom_file is reached only when valid_checksum is true and after the file length '
+         'was compared with the declared ROM size; size tables equal the cartridge tables for all 256 codes; unsupported '
+         'types diverge at load; no unchecked reinterpretation of header bytes.',
+    note=TB + 'std File/Read/Seek/metadata behave per contract.',
+    ref='DESIGN.md#c19'),
+ 'C20': dict(
+    technique='panic reachability over the call graph, def-use through pure models of std string functions, symbolic loop iteration of the disassembler',
+    text='Decides: no assert/panic/unwrap reachable from the three parsing functions; the unsafe get_unchecked(2..) is guarded '
+         'by starts_with("0x"); command literals are lower case and the compared word flows from '
+         'split_whitespace -> trim -> to_lowercase; the disassembler advances cursor and address by the length of the '
+         'decode call whose slice starts at the cursor, loops while cursor < len, and its 4-byte buffer covers the maximum '
+         'decoder length. Numeric parsing correctness rests on the std contracts of from_str_radix / parse::<u16> '
+         '(necessary-condition rule).',
+    note=TB + 'Disassembly precondition from the property: the input ends on an instruction boundary.',
+    ref='DESIGN.md#c20'),
  'C03': dict(
     technique='def-use / control-dependence analysis of the cache key through the resolved call graph (closures followed), jit configuration',
     text='Decides tag coherence: for every PC in the switchable ROM window and every controller type, the bank component '
